@@ -5062,6 +5062,13 @@ EmitDone:
 #undef ERROR_HANDLER
 
 Failed:
+  // Take back the relocation created for this instruction - a failed instruction must not leave it behind (it would
+  // patch whatever is emitted at this offset next).
+  if (re) {
+    ASMJIT_ASSERT(_code->_relocations.last() == re);
+    Support::maybe_unused(_code->_relocations.pop());
+  }
+
 #ifndef ASMJIT_NO_LOGGING
   return EmitterUtils::log_instruction_failed(this, err, inst_id, options, o0, o1, o2, op_ext);
 #else
